@@ -15,7 +15,7 @@ def run(rep: Report, tier: str, seed: int) -> None:
     specs = enumerate_trees(tier)
     rep.rule = (
         "same trees as C03 (underscore placement at package, module, class, nested class, method and attribute level x 10 re-export forms at every ancestor __init__);"
-        " every ground-truth private declaration must be absent from all stubs, no stub declaration may carry a private Python name, and is_public in the API JSON must equal the ground truth; distinct = distinct tree label"
+        " every ground-truth private declaration must be absent from all stubs, no stub declaration may carry a private Python name, and is_public in the API JSON must equal the ground truth; plus C17's hierarchies with private methods / properties / static / class methods / nested classes on private bases, under both namings: nothing shown in a public subclass may carry a private Python name; distinct = distinct tree label"
     )
 
     def judge(s: TreeSpec, opts: Opts, idx, api, obs) -> None:
@@ -59,6 +59,39 @@ def run(rep: Report, tier: str, seed: int) -> None:
 
     stats = run_trees(rep, specs, [Opts()], judge)
     rep.extra.update(stats)
+
+    # ---- private members of private classes that public subclasses inherit (C17's 'extras' hierarchies), both namings:
+    # whatever is shown in a subclass, nothing with a private Python name may be among it
+    from ..explore import run_packed
+    from ..pkg import index_stubs
+    from .c17 import enumerate_hierarchies
+    from .c17 import render as render_hierarchy
+
+    hs = [(f"{900000 + i:06d}", h) for i, (h, family) in enumerate(x for x in enumerate_hierarchies("quick") if x[1] == "extras")]
+
+    def build_h(us):
+        files = {f"{PKG}/__init__.py": ""}
+        for u, h in us:
+            for rel, text in render_hierarchy(h, u, False).items():
+                files[f"{PKG}/{rel}"] = text
+        return files, PKG
+
+    def on_h(us, opts, obs, files) -> None:
+        nc = "nc" if opts.convert else "py"
+        if obs.outcome != "completed":
+            rep.violation("run-completes", f"run:{obs.outcome}:{obs.crash_sig()}|hierarchies|{nc}", {"exc": obs.exc_type + ": " + obs.exc_msg}, files=files, src_rel=PKG, opts=opts, obs=obs)
+            return
+        idx = index_stubs(obs)
+        for u, h in us:
+            rep.case(f"hierarchy:{u}|{nc}", True)
+            bad = [(path, d.kind, d.py_name) for path, m in idx.modules.items() if f"h{u}" in path for _, d in m.walk() if not name_public(d.py_name)]
+            if bad:
+                rep.violation("private-name-emitted", f"inherited:{bad[0][1]}|{nc}", {"file": bad[0][0], "names": [b[2] for b in bad][:5]}, files=build_h([(u, h)])[0], src_rel=PKG, opts=opts)
+            else:
+                rep.ok("private-name-emitted")
+
+    run_packed([(hs, Opts()), (hs, Opts(convert=True))], build_h, on_h, stats)
+    rep.extra["hierarchies"] = len(hs)
     rep.extra["trees"] = len(specs)
     rep.extra["private_decls_judged"] = sum(1 for s in specs for g in s.decls if not g.public)
     rep.assumptions = [
